@@ -11,7 +11,7 @@ Rule K5: for every function and every fixed-size array reached from a parameter 
 collect the set R of indices read and W of indices written, when *all* accesses to that array in the function have
 statically known index ranges and the array does not escape (no whole-array use, no reference passed on).  If
 0 < N - |S| <= slack(N) for S in {R, W} the function must be listed in tables/limbcov.json (reviewed, with the
-reason), else it is reported.  slack(N) = 1 for N <= 5, 2 above.  The instances where S is the full index set are
+reason), else it is reported.  slack(N) = N / 2 (an operation touching at least half of the limbs).  The instances where S is the full index set are
 counted (floor) so the rule cannot pass vacuously.
 
 What this decides: the structural necessary condition "no limb is silently ignored"; not that the arithmetic on the
@@ -36,7 +36,8 @@ def load_table():
 
 
 def slack(n):
-    return 1 if n <= 5 else 2
+    """how many limbs may be missing for the operation to still count as 'whole-value': up to half of them."""
+    return n // 2
 
 
 class FnCov:
